@@ -10,7 +10,7 @@ namespace Gillespie
 
 def pickDist (P : GParams) (s : GState) (k : Nat) : Dist (Option GEvent) :=
   Dist.bind (Dist.bern (recThr P s)) fun b =>
-    if b then Dist.map (fun o => o.map GEvent.recover) (s.inf.chooseDist k)
-    else Dist.map (fun o => o.map fun p => GEvent.transmit p.1 p.2) (s.links.chooseDist k)
+    if b then Dist.push (fun o => o.map GEvent.recover) (s.inf.chooseDist k)
+    else Dist.push (fun o => o.map fun p => GEvent.transmit p.1 p.2) (s.links.chooseDist k)
 
 end Gillespie
